@@ -80,16 +80,32 @@ class C03:
             out.append({"s": s, "b": rng.choice(c04mod.BEHS), "n": b(rng.choice(names)), "v": b(rng.choice(VALUES))})
         return out
 
+    @staticmethod
+    def entry_key(nm):
+        """(stem, behaviour suffix) a file name is read as: Rust's file_stem/extension split, no extension = override"""
+        if nm != b".." and b"." in nm[1:]:
+            i = nm.rindex(b".")
+            stem, ext = nm[:i], nm[i:]
+        else:
+            stem, ext = nm, b".override"
+        return (stem, ext)
+
     def stray(self, rng):
         """left-overs of an earlier environment / foreign content in the env roots"""
         extra = []
         for root in [b"env", b"env.build", b"env.launch"]:
             if rng.random() < 0.5:
                 extra.append({"p": LAYER + [b(root)], "k": "d", "m": 0o755})
+                used = set()
                 for _ in range(rng.randint(0, 3)):
-                    nm = rng.choice(NAMES_ENV) + rng.choice(SUFFIXES + [b"", b".unknown", b".APPEND"])
+                    var, sx = rng.choice(NAMES_ENV), rng.choice(SUFFIXES + [b"", b".unknown", b".APPEND"])
+                    nm = var + sx
+                    # FOO and FOO.override are one (behaviour, name): which one a read returns depends on the
+                    # order of fs::read_dir, which the property does not fix (assumption 2) -- never both
+                    key = self.entry_key(nm)
                     p = LAYER + [b(root), b(nm)]
-                    if not any(e["p"] == p for e in extra):
+                    if key not in used and not any(e["p"] == p for e in extra):
+                        used.add(key)
                         extra.append({"p": p, "k": "f", "m": 0o644, "c": b(rng.choice(VALUES))})
                 if root == b"env.launch" and rng.random() < 0.5:
                     extra.append({"p": LAYER + [b(root), b(b"web")], "k": "d", "m": 0o755})
@@ -122,7 +138,7 @@ class C03:
                     for _ in range(rng.randint(0, 4)):
                         var = rng.choice(NAMES_ENV[:8])
                         sx = rng.choice(SUFFIXES + [b"", b".unknown", b".Override", b".default.bak"])
-                        key = (var, b".override" if sx == b"" else sx)
+                        key = self.entry_key(var + sx)
                         if key in used:
                             continue
                         used.add(key)
